@@ -981,6 +981,92 @@ def run_cross_call(files):
     R.notes.append(f'stragglers across calls: {len(cases)} (failing call A with a slow read, fault-free call B) pairs on one blob reader')
 
 
+# ------------------------------------------------------------------------------------------------ the same under python -O
+OPT_CHILD = r"""
+import sys, os, json
+sys.path.insert(0, %r)
+from hz import *
+path = sys.argv[1]
+out = []
+
+
+class ShortFile:
+    def __init__(self, p, k, kind):
+        self.f = open(p, 'rb'); self.n = 0; self.k = k; self.kind = kind; self.name = p
+    def seek(self, *a): return self.f.seek(*a)
+    def tell(self): return self.f.tell()
+    def read(self, n=-1):
+        b = self.f.read(n); self.n += 1
+        if self.n - 1 == self.k:
+            return b[:len(b) // 2] if self.kind == 'short' else b''
+        return b
+    def readinto(self, buf):
+        b = self.read(len(buf)); buf[:len(b)] = b; return len(b)
+    def close(self): self.f.close()
+
+
+class ShortBlob:
+    def __init__(self, p, k, kind):
+        self.data = open(p, 'rb').read(); self.n = 0; self.k = k; self.kind = kind; self.blob_name = p
+    def download_blob(self, offset=None, length=None):
+        me = self
+        class D:
+            def readall(s):
+                b = me.data[offset:offset + length]; me.n += 1
+                if me.n - 1 == me.k:
+                    return b[:len(b) // 2] if me.kind == 'short' else b''
+                return b
+        return D()
+    def close(self): pass
+
+
+def canon(v):
+    return v.tobytes() if hasattr(v, 'tobytes') else repr(sorted((int(a), int(b)) for a, b in dict(v).items()))
+
+
+with SgzReader(path) as r0:
+    calls = [('read_inline', (1,)), ('read_crossline', (2,)), ('get_trace', (3,)), ('gen_trace_header', (1,)), ('get_tracefield_1d', (189,)), ('read_volume', ())]
+    want = {c: canon(getattr(r0, c[0])(*c[1])) for c in calls}
+for backend, H in (('file', ShortFile), ('blob', ShortBlob)):
+    for c in calls:
+        for kind in ('short', 'empty'):
+            for k in range(0, 40):
+                h = H(path, k, kind)
+                try:
+                    r = SgzReader(h)
+                    got = canon(getattr(r, c[0])(*c[1]))
+                    res = 'same' if got == want[c] else 'DIFFERENT'
+                except Exception as e:
+                    res = 'raised'
+                reached = h.n > k
+                if not reached:
+                    break
+                if res != 'raised':
+                    out.append({'backend': backend, 'call': [c[0], list(c[1])], 'fault': kind, 'range_read': k, 'result': res})
+print('OPTRESULT ' + json.dumps({'optimize': sys.flags.optimize, 'bad': out[:20], 'n_bad': len(out)}))
+""" % os.path.join(os.path.dirname(os.path.abspath(__file__)), '..')
+
+
+def run_optimized(files):
+    """python -O strips assert statements: a length check (or any other guard of this property) written as an assert is gone
+    there.  A small fault sweep (every range read of six calls short / empty, both backends) in a child interpreter with -O."""
+    import subprocess
+    label, path, kind = [f for f in files if f[2] == '3d'][0]
+    p = subprocess.run([sys.executable, '-O', '-c', OPT_CHILD, path], stdout=subprocess.PIPE, stderr=subprocess.PIPE, text=True,
+                       env=dict(os.environ, PYTHONHASHSEED='0'), timeout=600)
+    line = [l for l in p.stdout.splitlines() if l.startswith('OPTRESULT ')]
+    if p.returncode != 0 or not line:
+        R.notes.append('python -O child did not finish: ' + (p.stderr or '')[-300:])
+        return
+    res = json.loads(line[0][len('OPTRESULT '):])
+    R.count('python -O fault sweep')
+    R.case(('python -O', label), nontrivial=True, sample={'file': label, 'interpreter': 'python -O', 'optimize_flag': res['optimize']})
+    for b in res['bad'][:6]:
+        R.violation('oracle', dict(b, file=label, interpreter='python -O (assert statements stripped)'),
+                    'a short / empty range read did not make the call raise under python -O: the call '
+                    + ('returned data that differs from the true data' if b['result'] == 'DIFFERENT' else 'returned a value'))
+
+
 # ------------------------------------------------------------------------------------------------ generated fan-out terms
 def run_slots(label, path):
     """the range reads and destination slots that Gen/Faults.v records for the three I/O fan-outs, evaluated in Coq for
@@ -1057,6 +1143,7 @@ try:
                                              ('read_subvolume', (40, 90, 3, 127, 100, 299)), ('get_trace', (7777,))])
     run_timewarp(files)
     run_cross_call(files)
+    run_optimized(files)
     # ---- the model on the same inputs
     if not a.no_model and MODEL_CASES:
         # group cases by (backend, L, plan) to keep terms short
